@@ -42,7 +42,7 @@ def self_case(draw):
     case["shared"] = {str(i): i for i in range(n)}
     N = len(case["sels"])
     copies = case["meta"]["copies"]
-    in_copy = set(i for c in copies for i in range(c["start"], c["start"] + n))
+    in_copy = set(i for c in copies for i in c["idx"])
     by = [i for i in range(N) if i not in in_copy]
     rall = case["replace_all"]
     pterms = {"bonds": [], "angles": [], "dihedrals": []}
@@ -55,7 +55,7 @@ def self_case(draw):
                     pterms[kind].append(t)
         for c in copies:
             for t in pterms[kind]:
-                sterms[kind].append([c["start"] + i for i in t])
+                sterms[kind].append([c["idx"][i] for i in t])
         pool = by if rall else list(range(N))
         if len(pool) >= size:
             for _ in range(draw(hperm.integers(0, 3))):
@@ -122,7 +122,7 @@ def self_oracle(case, stats):
         stats.count("skipped:" + (reason or "no-match"))
         return
     n = len(case["ppos"])
-    planted = {tuple(sorted(range(c["start"], c["start"] + n))) for c in case["meta"]["copies"]}
+    planted = {tuple(sorted(c["idx"])) for c in case["meta"]["copies"]}
     if set(groups) != planted:
         stats.count("skipped:accidental-occurrences")
         return
@@ -131,9 +131,9 @@ def self_oracle(case, stats):
     s = build_with_terms(case)
     # pattern carries copy 0's charges and groups when replace_all re-inserts atoms; with several copies charges differ,
     # so under replace_all the charges are compared only for one-copy cases
-    c0 = case["meta"]["copies"][0]["start"]
+    c0 = case["meta"]["copies"][0]["idx"]
     pl = case["payload"]
-    p = build_pattern_with_terms(case, charges=[pl["charges"][c0 + i] for i in range(n)], groups=[pl["groups"][c0 + i] for i in range(n)])
+    p = build_pattern_with_terms(case, charges=[pl["charges"][c0[i]] for i in range(n)], groups=[pl["groups"][c0[i]] for i in range(n)])
     try:
         new = mf.replace(s, p, p.copy(), case["atol"], case["hints"], case["seeds"], replace_all=rall)
     except Exception as e:
